@@ -135,7 +135,11 @@ pub fn check(case: &Case) -> Verdict {
         }
         let sf = c.scale(case.ty, from);
         let st_inv = c.scale(case.ty, to).recip();
-        let w = amt::product_within(conv.0, &[&a_rat, sf, &st_inv], 1);
+        let exact_amt = a_rat.mul(sf).mul(&st_inv);
+        let w = match amt::product_budget_reps(&[&a_rat, sf, &st_inv], &[sf, c.scale(case.ty, to)]) {
+            None => Within::OutOfModel,
+            Some(b) => if amt::close(conv.0, &exact_amt, &b, 1) { Within::Yes } else { Within::No },
+        };
         match w {
             Within::No => fail!(
                 "{}: {} converted to {} gives {}; exact value is {}",
@@ -189,7 +193,7 @@ pub fn check(case: &Case) -> Verdict {
         if u != v {
             let ideal_in = mag.div(c.scale(case.ty, u));
             let sv_inv = c.scale(case.ty, v).recip();
-            match amt::product_budget(&[&ideal_in, c.scale(case.ty, u), &sv_inv]) {
+            match amt::product_budget_reps(&[&ideal_in, c.scale(case.ty, u), &sv_inv], &[c.scale(case.ty, u), c.scale(case.ty, v)]) {
                 Some(b) => budget = budget.add(&b.mul(c.scale(case.ty, v)).mul(&s_last_inv)),
                 None => in_model = false,
             }
